@@ -107,6 +107,12 @@ func C15chi(p *load.Program, run *report.Run) {
 				if ap, ok := r.(*ssa.Call); ok {
 					if bi, ok := ap.Call.Value.(*ssa.Builtin); ok && bi.Name() == "append" && len(ap.Call.Args) == 2 {
 						part := func(v ssa.Value) string {
+							// an empty vector made to be appended to contributes no rows
+							if ms, ok := v.(*ssa.MakeSlice); ok {
+								if k, ok := ms.Len.(*ssa.Const); ok && k.Int64() == 0 {
+									return ""
+								}
+							}
 							x2 := flow.NewXSlice(load.InModule)
 							for _, bd := range curBinds {
 								x2.Enter(bd.callee, bd.call)
@@ -114,7 +120,14 @@ func C15chi(p *load.Program, run *report.Run) {
 							x2.Add(v)
 							return classOf(x2, v)
 						}
-						return part(ap.Call.Args[0]) + "+" + part(ap.Call.Args[1])
+						a, b := part(ap.Call.Args[0]), part(ap.Call.Args[1])
+						switch {
+						case a == "":
+							return b
+						case b == "":
+							return a
+						}
+						return a + "+" + b
 					}
 				}
 			}
